@@ -23,7 +23,9 @@ CHECKS = {
              "the implementation BYTE FOR BYTE on generated whole maps and the fixtures. Proved about it: every flag word "
              "keeps exactly its defined bits, location slots round-trip under the last-id guard, unknown / unsupported "
              "entries and unmodelled sections are untouched, and - for a well-formed string table - an unedited save emits the STR "
-             "section exactly as it was loaded (everything decode_chk builds mentions only texts that table resolves). The full statement (spec_view preserved) is false of the "
+             "section exactly as it was loaded (everything decode_chk builds mentions only texts that table resolves); a supported "
+             "action / condition of ANY registered type, decoded in the load context and encoded in the save context, keeps its type number, "
+             "its five flag bits, the number in every plain / enumeration field and a string number resolving to the same text. The full statement (spec_view preserved) is false of the "
              "unchanged code outside four recorded findings; it is judged per map by an independent reader of the bytes "
              "before and after, every difference matched against the recorded finding predicates.",
         ref="DESIGN.md 5.9",
@@ -49,7 +51,9 @@ CHECKS = {
         text="PARTIAL. Coq theorem: for every supported action type and ANY lookups, each authored argument is written "
              "through its codec into the record field the SPECIFICATION table names, the type byte is the type's number, "
              "unused fields are zero (C05's generic theorem pushed through the public encode); authored strings get ids "
-             "resolving to them (C08) and new objects free slots of their own (C09). The end-to-end claim is checked on the "
+             "resolving to them (C08) and new objects free slots of their own (C09); the record written for an authored action / "
+             "condition of any of the 51 + 22 types is read back by the registered transcoder as the same type with the same flags and "
+             "arguments (identical for plain numbers, enumeration members and strings; for object references up to the codec's own decode-after-encode). The end-to-end claim is checked on the "
              "implementation: authored scenarios over all 51+22 types, read back by an independent reader resolving every "
              "reference to content; the pipeline model reproduces the saved bytes exactly.",
         ref="DESIGN.md 5.11",
@@ -161,8 +165,10 @@ CHECKS = {
              "to exactly the layout's size and a strict array of another length raises; WHOLE MAP: every table section "
              "RichChkIo.encode_chk emits (re-encoded, recomputed UPUS, appended SWNM/UPRP/UPUS) has its mandated size for any "
              "rich content in rich form, and whatever decode_chk returns is in rich form; a string table holding anything "
-             "but NUL-free 7-bit text is never written. The reference rules (every written "
-             "id refers to an existing non-empty entry, offsets reach a NUL, UPUS agrees) are judged by an independent "
+             "but NUL-free 7-bit text is never written; every string number written into the location, switch-name and sound tables "
+             "refers to the emitted string table; the usage table agrees with the unit-property slots (byte k is 1 exactly when slot k was "
+             "written from a set carrying index k+1, else the slot is all zero). The remaining reference rules (every written "
+             "object id refers to an existing non-empty entry, offsets reach a NUL) are judged by an independent "
              "validator on degenerate scenarios; the pipeline model agrees with the implementation on all of them "
              "(bytes or exception).",
         ref="DESIGN.md 5.14",
@@ -302,7 +308,7 @@ def main():
         }],
         "checks": checks,
         "not_applicable": [{"property_id": p, "reason": NOT_YET} for p in ALL if p not in CHECKS],
-        "notes": "22 fix: commits in /repo (7837be1 ... f9613d2) and 17 recorded findings: see KNOWN_FINDINGS.txt and DESIGN.md section 10.4 / 10.7. Seeded breaking changes (95 in five rounds) and what catches them: /verif/seeded and DESIGN.md section 10.6.",
+        "notes": "23 fix: commits in /repo (7837be1 ... 8d40d98) and 17 recorded findings: see KNOWN_FINDINGS.txt and DESIGN.md section 10.4 / 10.7. Seeded breaking changes (114 in six rounds) and what catches them: /verif/seeded and DESIGN.md section 10.6.",
     }
     Path("/verif/MANIFEST.json").write_text(json.dumps(m, indent=1) + "\n")
 
